@@ -435,6 +435,16 @@ func (pConn *PFCPConn) handleSessionModificationRequest(msg message.Message) (me
 		logger.PfcpLog.Errorf("failed to put PFCP session to store: %v", err)
 	}
 
+	// A removed PDR takes its UP-chosen TEID with it: RemoveSession only returns the TEIDs
+	// of the rules that are still stored when the session ends.
+	if upf.fteidGenerator != nil {
+		for _, p := range delPDRs {
+			if p.UPAllocateFteid {
+				upf.fteidGenerator.FreeID(p.tunnelTEID)
+			}
+		}
+	}
+
 	// Build response message
 	smres := message.NewSessionModificationResponse(0, /* MO?? <-- what's this */
 		0,                                    /* FO <-- what's this? */
